@@ -752,7 +752,12 @@ def main(argv=None):
             mod.search(ctx)
         except Exception:
             ctx.log('search crashed', traceback.format_exc())
-    return decide(ctx, proof_ok, getattr(mod, 'LEVEL', 'proof'))
+    level = getattr(mod, 'LEVEL', 'proof')
+    if level not in ('exploration', 'fault_enumeration', 'model_checking', 'proof', 'translation_validation', 'other'):
+        # harnesses may say 'partial': the level is still proof (theorems + tie), with the partial clauses named
+        ctx.extra['partial'] = True
+        level = 'proof'
+    return decide(ctx, proof_ok, level)
 
 
 if __name__ == '__main__':
